@@ -38,6 +38,31 @@ DocSeq == SetToSeq(
     VArr(<<VFlt(0), VFlt(1), VFlt(2)>>), VArr(<<VFlt(1), VStr(KA)>>), VArr(<<VStr(KA), VFlt(2)>>), VArr(<<>>),
     VArr(<<VObj(<<[k |-> KA, v |-> VFlt(2)]>>), VFlt(3)>>), VFlt(1), VFlt(2), VStr(KA), VNull, VTrue })
 
+(* conditions over @ for the in-filter form; several rebind @ in a nested   *)
+(* filter before the other operand reads the outer @                         *)
+At(a) == <<NCur>> \o a
+FConds ==
+  { NUn("exists", At(<<NKey(KA), NFilter(NBin("gt", At(<<>>), Lit(5)))>>)),
+    NUn("exists", At(<<NKey(KA), NFilter(NBin("gt", At(<<>>), Lit(0)))>>)),
+    NUn("exists", At(<<NKey(KA), NFilter(NBin("gt", At(<<>>), <<NStr(KX)>>))>>)),
+    NBin("eq", At(<<NKey(KB)>>), Lit(1)), NBin("eq", At(<<NKey(KA)>>), Lit(1)), NBin("gt", At(<<NKey(KA)>>), <<NStr(KX)>>),
+    NBin("gt", <<NBin("div", At(<<NKey(KB)>>), Lit(0))>>, Lit(0)),
+    NUn("not", <<NUn("exists", At(<<NKey(KA), NAnyArr, NFilter(NBin("eq", At(<<>>), Lit(9)))>>))>>) }
+FCondSeq == SetToSeq(FConds)
+Obj2(a, b) == VObj(<<[k |-> KA, v |-> a], [k |-> KB, v |-> b]>>)
+FDocSeq == SetToSeq({ VArr(<<Obj2(x, y)>>) : x \in {VFlt(1), VFlt(9), VStr(KX), VArr(<<VFlt(9), VFlt(1)>>)}, y \in {VFlt(1), VFlt(2)} }
+                    \cup { VArr(<<Obj2(VFlt(1), VFlt(1)), Obj2(VFlt(9), VFlt(2)), Obj2(VStr(KX), VFlt(1))>>) })
+C11FilterPreds(p, q) ==
+  << NBin("and", <<p>>, <<q>>), NBin("and", <<q>>, <<p>>), NBin("or", <<p>>, <<q>>), NBin("or", <<q>>, <<p>>),
+     NUn("not", <<NUn("not", <<p>>)>>), p >>
+SpecC11Filter(p, q, doc, lx) ==
+  LET ps == C11FilterPreds(p, q)
+  IN [id |-> 0, kind |-> "C11filter", lax |-> lx, names |-> <<>>,
+      runs |-> [i \in 1..Len(ps) |-> SpecGRun(<<NRoot, NAnyArr, NFilter(ps[i])>>, FALSE, doc, <<>>, lx)]]
+ASSUME \A a \in 1..Len(FCondSeq), b \in 1..Len(FCondSeq), d \in 1..Len(FDocSeq), lx \in BOOLEAN :
+          GroupOK(SpecC11Filter(FCondSeq[a], FCondSeq[b], FDocSeq[d], lx))
+ASSUME ndJsonSerialize("fconds.ndjson", [i \in 1..Len(FCondSeq) |-> [p |-> FCondSeq[i]]])
+ASSUME ndJsonSerialize("fdocs.ndjson", [i \in 1..Len(FDocSeq) |-> [doc |-> FDocSeq[i]]])
 ASSUME ndJsonSerialize("conds.ndjson", [i \in 1..Len(CondSeq) |-> [p |-> CondSeq[i]]])
 ASSUME ndJsonSerialize("exprs.ndjson", [i \in 1..Len(ExprSeq) |-> [chain |-> ExprSeq[i]]])
 ASSUME ndJsonSerialize("docs.ndjson", [i \in 1..Len(DocSeq) |-> [doc |-> DocSeq[i]]])
